@@ -18,6 +18,8 @@ namespace Measured
     (C02) and every unit's dimension is the product of its factors' dimensions (C01) -/
 alias C01.invariants_survive_every_query_history := queries_good
 alias C02.canonical_after_every_query_history := queries_good
+/-- … and every factor of every unit is still a base unit (C13's rendering theorem applies in those states) -/
+alias C13.base_factors_after_every_query_history := queries_good
 /-- one conversion between existing units, returning or raising -/
 alias C01.conversion_keeps_invariants := good_convert
 
